@@ -239,6 +239,28 @@ pub fn policy_with(f: impl FnOnce(&mut SimplePolicy)) -> SimplePolicy {
     p
 }
 
+/// A policy filter that is *not* permissive for the tag families in `keep`: every other family of
+/// policy tags is demoted to a warning (prefix rules), and for the kept families there are decoy
+/// rules that must not match anything (an exact rule for the bare family prefix, and a warn rule
+/// placed *after* an error rule for the same prefix: the first match decides).
+pub fn unrelated_filter(keep: &[&str]) -> lightning_signer::policy::filter::PolicyFilter {
+    use lightning_signer::policy::filter::{FilterResult, FilterRule, PolicyFilter};
+    let families = ["policy-commitment", "policy-channel", "policy-funding", "policy-mutual", "policy-onchain", "policy-sweep", "policy-htlc", "policy-routing", "policy-revoke", "policy-invoice", "policy-chain"];
+    let mut rules = vec![];
+    for k in keep {
+        rules.push(FilterRule { tag: k.to_string(), is_prefix: false, action: FilterResult::Warn });
+        rules.push(FilterRule { tag: format!("{}-", k), is_prefix: false, action: FilterResult::Warn });
+        rules.push(FilterRule { tag: k.to_string(), is_prefix: true, action: FilterResult::Error });
+        rules.push(FilterRule { tag: k.to_string(), is_prefix: true, action: FilterResult::Warn });
+    }
+    for f in families {
+        if !keep.contains(&f) {
+            rules.push(FilterRule { tag: f.to_string(), is_prefix: true, action: FilterResult::Warn });
+        }
+    }
+    PolicyFilter { rules }
+}
+
 // ------------------------------------------------------------------------------------------
 // Deviation-bounded enumeration
 // ------------------------------------------------------------------------------------------
